@@ -83,12 +83,14 @@ LcText(t) == Strict([i \in 1..Len(t) |-> Lc(t[i])])
 (* (1 == 1.0 == True), dicts ignore the order of their items.              *)
 (***************************************************************************)
 NumKey(x) == CASE x.k = "bool"  -> IF x.v = TrueText THEN <<"1">> ELSE <<"0">>
-               [] x.k = "int"   -> x.v
-               [] x.k = "float" -> IF Len(x.v) > 2 /\ SubSeq(x.v, Len(x.v) - 1, Len(x.v)) = <<".", "0">> THEN SubSeq(x.v, 1, Len(x.v) - 2) ELSE <<"f">> \o x.v
+               [] x.k = "int"   -> IF x.v = <<"-", "0">> THEN <<"0">> ELSE x.v
+               [] x.k = "float" -> IF x.v \in {<<"0", ".", "0">>, <<"-", "0", ".", "0">>} THEN <<"0">>                       \* 0.0 == -0.0 == 0
+                                   ELSE IF Len(x.v) > 2 /\ SubSeq(x.v, Len(x.v) - 1, Len(x.v)) = <<".", "0">> THEN SubSeq(x.v, 1, Len(x.v) - 2) ELSE <<"f">> \o x.v
                [] OTHER -> <<"?">>
 RECURSIVE PyEq(_, _)
 PyEq(a, b) ==
-  IF a.k \in {"bool", "int", "float"} /\ b.k \in {"bool", "int", "float"} THEN NumKey(a) = NumKey(b)
+  IF a.k \in {"bool", "int", "float"} /\ b.k \in {"bool", "int", "float"}
+  THEN NumKey(a) = NumKey(b) /\ a.v # <<"n", "a", "n">> /\ b.v # <<"n", "a", "n">>          \* nan == nan is False
   ELSE IF a.k # b.k THEN FALSE
   ELSE IF a.k \in ScalarKinds THEN a.v = b.v
   ELSE IF a.k \in {"list", "tuple"} THEN Len(a.v) = Len(b.v) /\ \A i \in 1..Len(a.v) : PyEq(a.v[i], b.v[i])
